@@ -1582,6 +1582,11 @@ impl fmt::Display for Type2<'_> {
           let _ = write!(t2_str, ".{}", tag_constraint);
         }
 
+        // `#6` / `#6.n` without a content type is parsed with an empty type
+        if t.type_choices.is_empty() {
+          return write!(f, "{}", t2_str);
+        }
+
         t2_str.push('(');
 
         #[cfg(feature = "ast-comments")]
